@@ -86,14 +86,22 @@ fn load<'a>(bytes: &'a [u8], filter: u8) -> Result<F<'a>, String> {
     let mut font = Font::new(prov).map_err(|e| format!("Font::new: {:?}", e))?;
     // configuration, not a query: applied identically to every font object of a case, right
     // after construction
+    apply_filter(&mut font, filter);
+    Ok(font)
+}
+
+/// The embedded-image filter is configuration: the fresh font of a comparison gets the filter
+/// that is in force on the used font at that point (`Op::SetImageFilter` changes it mid-history).
+fn apply_filter(font: &mut F<'_>, filter: u8) {
     match filter {
         0 => {}
         1 => font.set_embedded_image_filter(GlyphTableFlags::SBIX),
         2 => font.set_embedded_image_filter(GlyphTableFlags::SVG),
         3 => font.set_embedded_image_filter(GlyphTableFlags::CBDT | GlyphTableFlags::EBDT),
-        _ => font.set_embedded_image_filter(GlyphTableFlags::empty()),
+        4 => font.set_embedded_image_filter(GlyphTableFlags::empty()),
+        5 => font.set_embedded_image_filter(GlyphTableFlags::SVG | GlyphTableFlags::SBIX | GlyphTableFlags::CBDT),
+        _ => font.set_embedded_image_filter(GlyphTableFlags::all()),
     }
-    Ok(font)
 }
 
 /// user-space tuples over the font's axes, normalised the documented way (fvar + avar)
@@ -463,6 +471,9 @@ pub enum Op {
     Os2,
     Axes,
     Tables,
+    /// reconfiguration in the middle of a history (`set_embedded_image_filter`): not a query;
+    /// from here on the fresh font of every comparison is configured with this filter
+    SetImageFilter(u8),
 }
 
 /// kind numbers used by the generator
@@ -478,6 +489,7 @@ const K_HASIMG: u8 = 8;
 const K_OS2: u8 = 9;
 const K_AXES: u8 = 10;
 const K_TABLES: u8 = 11;
+const K_SETFILTER: u8 = 12;
 const K_SAME: u8 = 255;
 
 #[derive(Clone, Debug)]
@@ -610,6 +622,7 @@ fn resolve(e: &FontEntry, s: &OpSpec, probe: &OpSpec) -> Op {
         K_HASIMG => Op::HasImages,
         K_OS2 => Op::Os2,
         K_AXES => Op::Axes,
+        K_SETFILTER => Op::SetImageFilter(1 + pick(6, s.r[0]) as u8),
         _ => Op::Tables,
     }
 }
@@ -708,6 +721,10 @@ fn run(font: &mut F<'_>, e: &FontEntry, op: &Op) -> String {
                 font.maxp_table
             )
         }
+        Op::SetImageFilter(k) => {
+            apply_filter(font, *k);
+            "filter set".to_string()
+        }
     }
 }
 
@@ -763,6 +780,7 @@ fn show_op(e: &FontEntry, op: &Op) -> String {
         Op::Os2 => "os2_table".into(),
         Op::Axes => "variation_axes/axis_names".into(),
         Op::Tables => "table accessors".into(),
+        Op::SetImageFilter(k) => format!("set_embedded_image_filter(#{})", k),
     }
 }
 
@@ -785,6 +803,7 @@ fn family(op: &Op) -> u8 {
         Op::Os2 => 6,
         Op::Axes => 7,
         Op::Tables => 8,
+        Op::SetImageFilter(_) => 9,
     }
 }
 
@@ -802,6 +821,7 @@ fn kind_name(op: &Op) -> &'static str {
         Op::Os2 => "os2_table",
         Op::Axes => "variation_axes",
         Op::Tables => "table_accessors",
+        Op::SetImageFilter(_) => "set_embedded_image_filter",
     }
 }
 
@@ -916,8 +936,16 @@ fn check_history(t: &Target<'_>, filter: u8, history: &[Op], probe: &Op, sampled
     );
     let mut used = load(t.bytes, filter).map_err(harness)?;
     let mut evals = 0u64;
+    let initial_filter = filter;
+    let mut filter = filter;
+    let mut reconfigured = false;
     for (i, op) in history.iter().enumerate() {
         let got = run_or_skip!(&mut used, op);
+        if let Op::SetImageFilter(k) = op {
+            reconfigured |= *k != filter;
+            filter = *k;
+            continue;
+        }
         if sampled == Some(i) {
             let mut fresh = load(t.bytes, filter).map_err(harness)?;
             let exp = run_or_skip!(&mut fresh, op);
@@ -1020,6 +1048,19 @@ fn check_history(t: &Target<'_>, filter: u8, history: &[Op], probe: &Op, sampled
             if matches!(probe, Op::Os2 | Op::Axes | Op::Tables | Op::HasImages) && !history.is_empty() {
                 nontrivial = true;
             }
+            // image queries after the filter was changed on a font that had already answered one
+            if fam == 5 && reconfigured {
+                let mut seen_query = false;
+                let mut after = false;
+                for h in history {
+                    match h {
+                        Op::LookupImage { .. } | Op::HasImages | Op::LookupGlyph { .. } | Op::MapGlyphs { .. } | Op::Shape(_) | Op::Positions { .. } => seen_query = true,
+                        Op::SetImageFilter(_) if seen_query => after = true,
+                        _ => {}
+                    }
+                }
+                rec.class_if(after, "image-query-after-filter-change-on-used-font");
+            }
         }
     }
     rec.set_nontrivial(nontrivial);
@@ -1028,6 +1069,8 @@ fn check_history(t: &Target<'_>, filter: u8, history: &[Op], probe: &Op, sampled
     rec.class_if(history.is_empty(), "history:empty");
     rec.class_if(history.len() >= 6, "history:>=6");
     rec.class_if(filter != 0, "image-filter-set");
+    rec.class_if(reconfigured, "image-filter-changed-mid-history");
+    let _ = initial_filter;
     rec.class_if(got.starts_with("Err"), "probe-result:error");
     rec.sample(|| {
         format!(
@@ -1317,6 +1360,24 @@ pub fn case_strategy() -> impl Strategy<Value = Case> {
         mutation_strategy(),
     )
         .prop_map(|(font, filter, history, probe, sample, mutation)| Case { font, filter, history, probe, sample, mutation })
+}
+
+/// Section `image-config`: histories on the fonts with image tables (sbix, SVG, EBDT, an
+/// unreadable SVG) made of image queries, VS16 lookups and `set_embedded_image_filter` calls.
+fn image_case_strategy() -> impl Strategy<Value = Case> {
+    let hist_kind = prop_oneof![5 => Just(K_IMAGE), 3 => Just(K_HASIMG), 6 => Just(K_SETFILTER), 2 => Just(K_LOOKUP), 1 => Just(K_MAP), 1 => Just(K_SHAPE)];
+    let probe_kind = prop_oneof![5 => Just(K_IMAGE), 3 => Just(K_HASIMG), 2 => Just(K_LOOKUP)];
+    let spec = |k: BoxedStrategy<u8>| (k, proptest::array::uniform7(any::<u32>()), any::<u8>()).prop_map(|(kind, r, flags)| OpSpec { kind, r, flags, copy: 0 });
+    (any::<u32>(), prop_oneof![3 => Just(0u8), 2 => 1u8..7], proptest::collection::vec(spec(hist_kind.boxed()), 1..9), spec(probe_kind.boxed()), any::<u32>())
+        .prop_map(|(font, filter, history, probe, sample)| Case { font, filter, history, probe, sample, mutation: None })
+}
+
+fn check_image_case(case: &Case, rec: &mut Rec) -> CaseResult {
+    let pool: Vec<&FontEntry> = fonts().iter().filter(|f| f.kind == "images" || f.kind == "broken-tables").collect();
+    if pool.is_empty() {
+        return Err(Fail::new("C03:harness-no-fonts", "no font with image tables could be loaded"));
+    }
+    check_on_entry(pool[pick(pool.len(), case.font)], case, rec)
 }
 
 // ------------------------------------------------------------------ fonts generated per case
@@ -1850,13 +1911,14 @@ impl Property for C03 {
          The canonical rendering (Debug of glyphs/infos/positions/errors, bytes of images and OS/2) of the probe on the used font must equal the probe on a Font freshly loaded from the same bytes; one sampled history op is compared with its own fresh font, and the probe is repeated on the used font. \
          Non-trivial = the history contains at least one op of the probe's kind family (shape/positions; map_glyphs or shaping; lookup or mapping or shaping; advances; names; images) whose arguments differ from the probe's (argument-less queries: any earlier call). Classes record which argument differs; `tuple-differs-with-feature-variations` = shaping probe on a font with FeatureVariations after shaping with a tuple that selects another feature-variation record. \
          Section `pure-twice`: subset / whole_font / prince::subset / instance / container decoding (sfnt, WOFF, WOFF2) are run twice from fresh providers with unrelated work in between and twice on one provider; outputs must be byte-identical (table tags compared as sorted sets); non-trivial = the operation succeeded with non-empty output. \
+         Section `image-config`: on the fonts with image tables (sbix, SVG, EBDT, unreadable SVG) histories of image queries, VS16 lookups and set_embedded_image_filter calls; the fresh font of a comparison carries the filter last set on the used font (class `image-query-after-filter-change-on-used-font` = the filter was changed after the used font had answered a query). \
          `fv-model` checks the generated font against its model on fresh fonts in every regime; `pinned` replays fixed histories for the two cache-key defects found with this check (repaired since). Distinct by hash of the generated case."
             .to_string()
     }
     fn assumptions(&self) -> Vec<String> {
         vec![
             "Debug renderings of RawGlyph/Info/GlyphPosition/ParseError cover every observable field of the results".into(),
-            "set_embedded_image_filter is configuration: applied identically to used and fresh fonts right after construction, never mid-history".into(),
+            "set_embedded_image_filter is configuration, not a query: in `histories` it is applied identically to used and fresh fonts right after construction; in `image-config` it is also called mid-history, and the fresh font of each comparison is configured with the filter in force on the used font at that point".into(),
             "variation tuples are obtained the documented way (FvarTable::normalize with the font's avar)".into(),
             "two runs in one process use differently seeded HashMaps (std RandomState), so iteration-order dependence shows up as a byte difference".into(),
         ]
@@ -1873,6 +1935,8 @@ impl Property for C03 {
             (any::<u32>(), any::<u8>(), proptest::array::uniform8(any::<u32>()), any::<u8>()).prop_map(|(font, op, r, between)| PureCase { font, op, r, between }),
             |c, rec| check_pure(c, rec),
         );
+        let n = ctx.cases(3_000, 300_000);
+        ctx.section("image-config", n, image_case_strategy(), |c, rec| check_image_case(c, rec));
         // variants x 9 tuple choices x 16 (script/lang, smcp, kerning) combinations
         ctx.enumerate("fv-model", fv_font::VARIANTS as u64 * 9 * 16, true, fv_model_item);
         ctx.enumerate("pinned", 8, true, pinned);
